@@ -47,14 +47,17 @@ if not ok:
     sys.exit(1)
 # our checks against the patched /repo
 results = {}
-run("git -C /repo apply %s/patch.diff" % OUT)
+# CONFIRM_TREE=<worktree>: patch that tree instead of /repo (while something else is using /repo)
+TREE = os.environ.get("CONFIRM_TREE", "/repo")
+cenv = {"VERIF_REPO": TREE} if TREE != "/repo" else {}
+run("git -C %s apply %s/patch.diff" % (TREE, OUT))
 try:
     for c in checks:
-        rcc, o = run("./check %s --tier quick" % c, cwd="/verif")
+        rcc, o = run("./check %s --tier quick" % c, cenv, cwd="/verif")
         results[c] = {"rc": rcc, "violation_lines": [l for l in o.splitlines() if l.startswith("VIOLATION")][:5],
                       "tail": o[-300:]}
 finally:
-    run("git -C /repo checkout -- .")
+    run("git -C %s checkout -- ." % TREE)
 n = 1
 while os.path.exists("/verif/seeded/%s-%d" % (pid, n)):
     n += 1
